@@ -12,7 +12,7 @@ import copy
 import z3
 
 from . import frontend
-from .sym import (DTYPE_RANGE, EngineError, V, VBool, VDict, VFunc, VInt, VModule, VNone, VObj, VOpaque, VOpt,
+from .sym import (DTYPE_RANGE, EngineError, V, VBool, VDict, VFunc, VInt, VMat, VModule, VNone, VObj, VOpaque, VOpt,
                   VReal, VSeq, VSet, VStr, VTuple, fresh_name, fresh_value, from_term, is_concrete_false,
                   is_concrete_true, parse_kind, sort_of, to_term)
 
@@ -242,6 +242,12 @@ class Interp:
                 lo, hi = DTYPE_RANGE[v.dtype]
                 i = z3.Int(fresh_name('wf'))
                 self.assume(st, z3.ForAll([i], z3.And(v.arr[i] >= lo, v.arr[i] <= hi), patterns=[v.arr[i]]))
+        elif isinstance(v, VMat):
+            self.assume(st, z3.And(v.rows >= 0, v.cols >= 0))
+            if v.dtype in DTYPE_RANGE and v.ek == 'int':
+                lo, hi = DTYPE_RANGE[v.dtype]
+                i, j = z3.Int(fresh_name('wf')), z3.Int(fresh_name('wf'))
+                self.assume(st, z3.ForAll([i, j], z3.And(v.arr[i][j] >= lo, v.arr[i][j] <= hi), patterns=[v.arr[i][j]]))
         elif isinstance(v, VDict) and v.size is not None:
             self.assume(st, v.size >= 0)
         elif isinstance(v, VSet) and v.card is not None:
@@ -547,6 +553,9 @@ class Interp:
             if v.init is not None:
                 v.init = z3.Array(fresh_name(f'h.{tag}.init'), z3.IntSort(), z3.BoolSort())
             self.wellformed(st, v)
+        elif isinstance(v, VMat):
+            v.arr = z3.Array(fresh_name(f'h.{tag}.mat'), z3.IntSort(), z3.ArraySort(z3.IntSort(), sort_of(v.ek)))
+            self.wellformed(st, v)
         elif isinstance(v, VSet):
             v.mem = z3.Array(fresh_name(f'h.{tag}.mem'), sort_of(v.ek), z3.BoolSort())
             if v.card is not None:
@@ -560,7 +569,7 @@ class Interp:
                 self.assume(st, v.size >= 0)
         elif isinstance(v, VObj):
             for f, x in list(v.fields.items()):
-                if isinstance(x, (VSeq, VSet, VDict, VObj)):
+                if isinstance(x, (VSeq, VSet, VDict, VObj, VMat)):
                     self.havoc_value(st, x, tag)
                 else:
                     v.fields[f] = self.fresh_like(x, f'{tag}.{f}', st)
@@ -811,8 +820,23 @@ class Interp:
             if base.init is not None:
                 base.init = z3.Store(base.init, i, z3.BoolVal(True))
             return
+        if isinstance(base, VMat):
+            idx = self.eval(sl, st)
+            if not (isinstance(idx, VTuple) and len(idx.items) == 2):
+                raise EngineError('2-D store needs M[i, j]')
+            i, j = to_term(idx.items[0], 'int'), to_term(idx.items[1], 'int')
+            txt = self.src(t)
+            self.oblige(st, f'bounds[{txt}]', z3.And(i >= 0, i < base.rows, j >= 0, j < base.cols), text=txt)
+            if base.dtype in DTYPE_RANGE and isinstance(v, (VInt, VBool)):
+                lo, hi = DTYPE_RANGE[base.dtype]
+                tv = to_term(v, 'int')
+                self.oblige(st, f'range[{txt}:{base.dtype}]', z3.And(tv >= lo, tv <= hi))
+            base.arr = z3.Store(base.arr, i, z3.Store(base.arr[i], j, to_term(v, base.ek)))
+            return
         if isinstance(base, VDict):
             key = self.eval(sl, st)
+            if base.kk == 'unknown':
+                self.stubs._fix_dict_kind(base, key.kind, v.kind)
             kt = to_term(key, base.kk)
             if base.size is not None:
                 base.size = z3.If(base.dom[kt], base.size, base.size + 1)
@@ -1485,12 +1509,16 @@ class Interp:
         for lab, expr in c.get('requires', []):
             goal = self.spec(sub, expr, contract=c)
             self.oblige(st, f'{label}.pre.{lab}', goal, text=expr, unique=False)
+        if c.get('pure'):
+            # pure function whose contract gives its value as a spec term (ensures `result == <pure>` is part of
+            # the callee's own obligations): usable under binders (comprehensions, quantifiers)
+            return self.spec(sub, c['pure'], raw=True)
         sub.old = copy.deepcopy({**sub.glob, **sub.env})
         for m in c.get('modifies', []):
             tgt = sub.env.get(m[6:]) if m.startswith('param:') else st.glob.get(m)
             if tgt is None:
                 raise EngineError(f"modifies `{m}` of {c['qualname']} not bound")
-            if m.startswith('param:') or isinstance(tgt, (VSeq, VSet, VDict, VObj)):
+            if m.startswith('param:') or isinstance(tgt, (VSeq, VSet, VDict, VObj, VMat)):
                 self.havoc_value(st, tgt, label)
             else:
                 st.glob[m] = self.fresh_like(tgt, m, st)
@@ -1553,8 +1581,25 @@ class Interp:
                     return self.seq_get(base, i, st, txt=txt)
             i = self.index_term(idx, base, st, txt, check=False)
             return self.seq_get(base, i, st, txt=txt)
+        if isinstance(base, VMat):
+            idx = self.eval(sl, st)
+            if isinstance(idx, VTuple) and len(idx.items) == 2:
+                i, j = to_term(idx.items[0], 'int'), to_term(idx.items[1], 'int')
+                self.oblige(st, f'bounds[{txt}]', z3.And(i >= 0, i < base.rows, j >= 0, j < base.cols), text=txt)
+                r = from_term(base.arr[i][j], base.ek)
+                if isinstance(r, VInt):
+                    r.dtype = None
+                return r
+            i = to_term(idx, 'int')
+            self.oblige(st, f'bounds[{txt}]', z3.And(i >= 0, i < base.rows), text=txt)
+            return VSeq(base.ek, base.cols, base.arr[i], flavor='array', dtype=base.dtype)
         if isinstance(base, VDict):
             key = self.eval(sl, st)
+            if base.kk == 'unknown':
+                if base.default is not None:
+                    return base.default
+                self.oblige(st, f'key[{txt}]', z3.BoolVal(False), text=txt)
+                raise EngineError('lookup in empty dict of unknown kind')
             kt = to_term(key, base.kk)
             if base.default is not None:
                 return self.ite(base.dom[kt], from_term(base.val[kt], base.vk), base.default)
